@@ -192,7 +192,8 @@ def _inside(block: ast.AST, pred) -> bool:
 
 @fact("grp_alloc_read_locked", "bool", "false")
 def _grp_alloc_read_locked():
-    """Group.allocate_id: every read and the increment of _autoidcounter sit inside `with self._autoidlock`"""
+    """Group.allocate_id: every read and the increment of _autoidcounter sit inside `with self._autoidlock`, and nothing else in
+    the class assigns the counter (it only grows: an id handed out once is never handed out again, also across terminate())"""
     f = find("multi.py", "Group.allocate_id")
     uses = [n for n in ast.walk(f) if isinstance(n, ast.Attribute) and n.attr == "_autoidcounter"]
     if len(uses) < 2:
@@ -202,7 +203,30 @@ def _grp_alloc_read_locked():
         for n in ast.walk(w):
             if isinstance(n, ast.Attribute) and n.attr == "_autoidcounter":
                 locked.add(id(n))
-    return "true" if all(id(u) in locked for u in uses) else "false"
+    if not all(id(u) in locked for u in uses):
+        return "false"
+    # the counter only ever grows: in the whole class it is assigned in __init__ (= 0) and incremented in allocate_id, nowhere else
+    cls = find("multi.py", "Group")
+    for fn in [n for n in cls.body if isinstance(n, ast.FunctionDef)]:
+        for n in ast.walk(fn):
+            tg = []
+            if isinstance(n, ast.Assign):
+                tg = n.targets
+            elif isinstance(n, (ast.AugAssign, ast.AnnAssign)):
+                tg = [n.target]
+            elif isinstance(n, ast.Delete):
+                tg = n.targets
+            for t in tg:
+                for a in ast.walk(t):
+                    if isinstance(a, ast.Attribute) and a.attr == "_autoidcounter":
+                        if fn.name == "__init__" and isinstance(n, ast.Assign) and unparse(n.value) == "0":
+                            continue
+                        if fn.name == "allocate_id" and isinstance(n, ast.AugAssign) and isinstance(n.op, ast.Add) and unparse(n.value) == "1":
+                            continue
+                        return "false"
+        if "setattr(" in unparse(fn) and "_autoidcounter" in unparse(fn):
+            return "false"
+    return "true"
 
 
 @fact("mc_receive_queue_ok", "bool", "false")
@@ -374,7 +398,39 @@ def _read_loop_ok(fn, qual, recv):
     if t not in ("numbytes > len(buf)", "len(buf) < numbytes"):
         return False
     body = unparse(loops[0])
-    return (recv + "(numbytes - len(buf))") in body and "raise EOFError" in body and "buf += " in body
+    if not ((recv + "(numbytes - len(buf))") in body and "raise EOFError" in body and "buf += " in body):
+        return False
+    # an empty read ends the call by EOFError UNCONDITIONALLY (also before the first byte: "nothing at all" is no valid answer
+    # to read(n), the frame decoder relies on it): the test on the received piece has exactly one statement, the raise; the
+    # loop has no break / return / continue; after the loop comes `return buf` only
+    ifs = [n for n in loops[0].body if isinstance(n, ast.If)]
+    if len(ifs) != 1 or not unparse(ifs[0].test).startswith("not ") or ifs[0].orelse:
+        return False
+    if len(ifs[0].body) != 1 or not isinstance(ifs[0].body[0], ast.Raise) or "EOFError" not in unparse(ifs[0].body[0]):
+        return False
+    if any(isinstance(n, (ast.Break, ast.Return, ast.Continue)) for n in ast.walk(loops[0])):
+        return False
+    after = f.body[f.body.index(loops[0]) + 1:] if loops[0] in f.body else None
+    return after is not None and [unparse(n) for n in after] == ["return buf"]
+
+
+@fact("boot_ack_read_unconditional", "bool", "false")
+def _boot_ack_read_unconditional():
+    """every bootstrap variant takes the worker's acknowledgement byte off the stream by a statement of its own (`s = io.read(1)`),
+    never inside an `assert` (compiled away under -O: the byte would stay in front of the first frame); more generally no assert
+    of the package contains a call that consumes or produces stream / channel data"""
+    for fn in ("bootstrap_import", "bootstrap_exec", "bootstrap_socket"):
+        f = find("gateway_bootstrap.py", fn)
+        reads = [n for n in ast.walk(f) if isinstance(n, ast.Assign) and unparse(n) == "s = io.read(1)"]
+        if len(reads) != 1:
+            return "false"
+    for mod in ("gateway_bootstrap.py", "gateway_base.py", "gateway_io.py", "gateway_socket.py", "gateway.py", "multi.py", "rsync.py", "rsync_remote.py"):
+        tree = ast.parse(open(os.path.join(SRC, mod)).read())
+        for a in [n for n in ast.walk(tree) if isinstance(n, ast.Assert)]:
+            for c in [n for n in ast.walk(a) if isinstance(n, ast.Call) and isinstance(n.func, ast.Attribute)]:
+                if c.func.attr in ("read", "recv", "receive", "write", "send", "sendall", "get", "put", "pop", "wait", "readline", "_read"):
+                    return "false"
+    return "true"
 
 
 @fact("read_loops_exact", "bool", "false")
